@@ -78,6 +78,25 @@ def r1_degenerate(ck, w):
     ck.record('C19.R1', 'concat:skips-epsilon-factor', ok_c, 'a factor with a final, successor-less initial state is skipped at the top of the loop',
               'RawAutomaton::concat no longer skips factors recognising exactly the empty word: its optimised branch loses their empty word '
               '(a.(c* & b?).d rejects "ad")', hirq.fn_loc(g))
+    # (e) constructors declare the markers of the transitions they build
+    n_lit = 0
+    for f2 in w.all_fns(['circuits']):
+        if not f2['file'].endswith('parsing/automaton.rs') or '::tests' in f2['_nid']:
+            continue
+        for n in walk(f2['body']):
+            if n.get('k') != 'struct':
+                continue
+            fs_ = dict((nm, e) for nm, e in n.get('fs', []))
+            if 'transitions' not in fs_ or 'markers' not in fs_ or 'tail' in n:
+                continue
+            n_lit += 1
+            builds = any(x.get('k') == 'closure' for x in walk(fs_['transitions']))
+            m = peel(fs_['markers'])
+            bare_empty = m.get('k') == 'call' and (callee(m) or '').endswith(('::default', '::new')) and not m.get('args')
+            ck.record('C19.R1', f'{f2["_nid"]}:markers-declared', not (builds and bare_empty), 'markers consistent with the transitions built',
+                      f'{f2["_nid"]} builds transitions in its constructor literal but declares an EMPTY marker set: minimisation encodes letters against the '
+                      f'declared markers and panics (Regex::any().to_automaton())', hirq.fn_loc(f2, n))
+    ck.floor('C19.R1', 'RawAutomaton constructor literals', n_lit, 3)
     # (d)
     h = w.fn(RA + 'redirect_final_to_initial')
     ok_d = False
